@@ -33,6 +33,8 @@
 (*  Retained{changed}     byte slices / strings the copy's getters         *)
 (*                        returned right after Copy, compared with their   *)
 (*                        bytes then: within tC (clause 4)                 *)
+(*  Scheme{orig, copy}    scheme derived by a forced re-parse (the view of *)
+(*                        isTLS): equal unless a step wrote isTLS          *)
 (*  BgCopy / BgProbe      (kind bg) a copy handed to a goroutine that      *)
 (*                        looks at it while the server goes on: nothing    *)
 (*                        may change                                       *)
@@ -116,8 +118,13 @@ TraceCopy ==
   /\ UNCHANGED <<cs, npre, nst, cnt>> /\ Step
 
 DiffLine == Is("CopyDiff") /\ pend > 0
+(* A handler that rewrote the headers / body / multipart parts of a multipart request AFTER the server had parsed the
+   form (the parsed form then no longer matches Content-Type and body) cannot expect the form to be re-created from
+   them in the copy: unconstrained. *)
+PreRewrites == \E i \in DOMAIN cs.pre : Touch(cs.pre[i]) \cap (ReqHFields \cup ReqBody \cup ReqMP) # {}
+AllowedDiff == MayDiffer(strm[1], strm[2]) \cup (IF IsPreParsed(cs) /\ PreRewrites THEN PreParsedLoss ELSE {})
 TraceCopyDiff ==
-  /\ DiffLine /\ Line.comp \in MayDiffer(strm[1], strm[2])
+  /\ DiffLine /\ Line.comp \in AllowedDiff
   /\ pend' = pend - 1 /\ UNCHANGED pos /\ Keep /\ Same /\ Step
 
 NextStep == cs.steps[nst + 1]
@@ -164,6 +171,15 @@ TraceRetained ==
   /\ Range(Line.changed) \subseteq tC
   /\ pos' = "retained" /\ UNCHANGED pend /\ Keep /\ Same /\ Step
 
+(* Request.isTLS has no getter; it shows in the scheme a re-parse of an origin-form target yields.  The original is
+   made to re-parse at the very end of its handler, the copy at the very end of the case: same scheme, unless a step
+   of the case wrote isTLS on either side. *)
+TlsTouched == \E i \in DOMAIN cs.steps : "req.isTLS" \in Touch(cs.steps[i].m)
+TraceScheme ==
+  /\ Is("Scheme") /\ InCopyCase /\ pos = "retained"
+  /\ Line.orig = Line.copy \/ TlsTouched
+  /\ pos' = "schemed" /\ UNCHANGED pend /\ Keep /\ Same /\ Step
+
 (* ---- bg ---- *)
 TraceBgCopy ==
   /\ Is("BgCopy") /\ cs.kind = "bg" /\ pend = 0
@@ -191,13 +207,13 @@ TraceKFinal ==
 
 TraceEnd ==
   /\ Is("End") /\ cs # NoCase /\ pend = 0
-  /\ InCopyCase => pos = "retained"
+  /\ InCopyCase => pos = "schemed"
   /\ cs.kind = "bg" => cnt[1] >= 1 /\ cnt[2] = cnt[1]
   /\ cs.kind = "keys" => pos = "kfinal"
   /\ Idle /\ Step
 
 Normal == TraceCase \/ TraceEnter \/ TracePre \/ TraceCopy \/ TraceCopyDiff \/ TraceMut \/ TraceProbeO \/ TraceProbeC
-          \/ TraceEnding \/ TraceRecycle \/ TraceProbeS \/ TraceRetained \/ TraceBgCopy \/ TraceBgProbe
+          \/ TraceEnding \/ TraceRecycle \/ TraceProbeS \/ TraceRetained \/ TraceScheme \/ TraceBgCopy \/ TraceBgProbe
           \/ TraceKGet \/ TraceKSnap \/ TraceKFinal \/ TraceEnd
 
 NextCase(k) == IF \E j \in k + 1 .. Len(Trace) : Trace[j].ev = "Case"
